@@ -220,13 +220,18 @@ CmdVerdict(cmd, orig, redact) ==
 (* family: adversarial strings in the four slots *)
 Alphabet == {97, cSQ, cDQ, cBS, cDOLLAR, cBT, cSP, cNL, cAT, cSEMI, cCOLON, cAMP, cPCT}
 Strs(n) == UNION {[1..k -> Alphabet] : k \in 0..n}
-BaseSlots == {"header", "query", "path", "body"}                \* the design invariants below speak about these
+BaseSlots == {"header", "query", "path", "body"}                \* adversarial string in one place
 Slots == BaseSlots \cup {"cookie", "json", "form", "auth"}      \* cookie value, JSON string body, urlencoded form field, Authorization value
-Elements(n, m) == {[slot |-> sl, s |-> s] : sl \in Slots, s \in Strs(n)}
-                    \cup {[slot |-> sl, s |-> s] : sl \in {"header", "body"}, s \in [1..m -> Alphabet]}
+(* payloads that are empty or minimal for their media type, for every method that carries a body: the Content-Type header   *)
+(* of the original request must be reproduced although there may be nothing to pass to -d                                    *)
+EmptySlots == {"form-empty", "form-min", "text-empty", "json-object", "json-array", "json-null"}   \* {} / {k: a} as form, "" as text, {} [] null as JSON
+BodyMethods == {"POST", "PUT", "PATCH"}
+Elements(n, lm) == {[slot |-> sl, s |-> s, m |-> "-"] : sl \in Slots, s \in Strs(n)}
+                     \cup {[slot |-> sl, s |-> s, m |-> "-"] : sl \in {"header", "body"}, s \in [1..lm -> Alphabet]}
+                     \cup {[slot |-> sl, s |-> <<>>, m |-> mm] : sl \in EmptySlots, mm \in BodyMethods}
 (* field values: no CR / LF, no leading or trailing blanks (RFC 7230 3.2); path values are non-empty *)
 InFragment(e) == CASE e.slot \in {"header", "cookie", "auth"} -> /\ \A i \in 1..Len(e.s) : e.s[i] # cNL
-                                           /\ (e.s = <<>> \/ (~IsSpace(e.s[1]) /\ ~IsSpace(e.s[Len(e.s)])))
+                                                               /\ (e.s = <<>> \/ (~IsSpace(e.s[1]) /\ ~IsSpace(e.s[Len(e.s)])))
                    [] e.slot = "path" -> e.s # <<>>
                    [] OTHER -> TRUE
 (* the abstract request of an element (what the driver builds for real); URL data is percent-encoded except the           *)
@@ -234,25 +239,35 @@ InFragment(e) == CASE e.slot \in {"header", "cookie", "auth"} -> /\ \A i \in 1..
 HexDigit(n) == IF n < 10 THEN 48 + n ELSE 55 + n
 UrlSafe(b) == b \in 48..57 \/ b \in 65..90 \/ b \in 97..122 \/ b \in {45, 46, 95, 126, 33, cDOLLAR, cSQ, 40, 41, 42, 44, cSEMI, cCOLON, cAT}
 UrlEnc(t) == FoldLeft(LAMBDA a, b : IF UrlSafe(b) THEN Append(a, b) ELSE a \o <<cPCT, HexDigit(b \div 16), HexDigit(b % 16)>>, <<>>, Utf8Encode(t))
-ReqOf(e) == [method |-> sPOST,
+sJsonCT == <<97, 112, 112, 108, 105, 99, 97, 116, 105, 111, 110, 47, 106, 115, 111, 110>>          \* application/json
+MethodText(e) == CASE e.m = "PUT" -> <<80, 85, 84>> [] e.m = "PATCH" -> <<80, 65, 84, 67, 72>> [] OTHER -> sPOST
+(* payload text and media type of the elements that carry a body *)
+BodyOf(e) == CASE e.slot = "body" -> e.s
+               [] e.slot = "form-min" -> <<107, cEQ, 97>>
+               [] e.slot = "json-object" -> <<123, 125>> [] e.slot = "json-array" -> <<91, 93>> [] e.slot = "json-null" -> <<110, 117, 108, 108>>
+               [] OTHER -> <<>>
+MediaOf(e) == CASE e.slot \in {"body", "text-empty"} -> sTextPlain [] e.slot \in {"form-empty", "form-min"} -> sFormCT [] OTHER -> sJsonCT
+HasPayload(e) == e.slot = "body" \/ e.slot \in EmptySlots
+ReqOf(e) == [method |-> MethodText(e),
              target |-> CASE e.slot = "path" -> <<cSLASH, 120, cSLASH>> \o UrlEnc(e.s)
                           [] e.slot = "query" -> <<cSLASH, 120, cSLASH, 97, cQM, 113, cEQ>> \o UrlEnc(e.s)
                           [] OTHER -> <<cSLASH, 120, cSLASH, 97>>,
+             \* a request with a payload carries its media type even when the payload is empty
              headers |-> (IF e.slot = "header" THEN <<[n |-> hXH, v |-> e.s]>> ELSE <<>>)
-                           \o (IF e.slot = "body" /\ e.s # <<>> THEN <<[n |-> hContentType, v |-> sTextPlain]>> ELSE <<>>),
-             body |-> IF e.slot = "body" THEN Utf8Encode(e.s) ELSE <<>>]
+                           \o (IF HasPayload(e) THEN <<[n |-> hContentType, v |-> MediaOf(e)]>> ELSE <<>>),
+             body |-> Utf8Encode(BodyOf(e))]
 Opt(flag, arg) == <<cSP>> \o flag \o <<cSP>> \o ShQuote(arg)
 (* a faithful command under the model: 'Name;' for empty values, --data-raw for the payload *)
 RefCmd(e) == LET r == ReqOf(e) IN
     wCurl \o <<cSP>> \o wX \o <<cSP>> \o r.method
       \o FoldLeft(LAMBDA a, h : a \o Opt(wH, IF h.v = <<>> THEN h.n \o <<cSEMI>> ELSE h.n \o <<cCOLON, cSP>> \o h.v), <<>>, r.headers)
-      \o (IF r.body # <<>> THEN <<cSP>> \o wDataRaw \o <<cSP>> \o ShQuote(e.s) ELSE <<>>)
+      \o (IF r.body # <<>> THEN <<cSP>> \o wDataRaw \o <<cSP>> \o ShQuote(BodyOf(e)) ELSE <<>>)
       \o <<cSP>> \o ShQuote(sBase \o r.target)
 (* the naive form: -H 'Name: value' and -d data *)
 NaiveCmd(e) == LET r == ReqOf(e) IN
     wCurl \o <<cSP>> \o wX \o <<cSP>> \o r.method
       \o FoldLeft(LAMBDA a, h : a \o Opt(wH, h.n \o <<cCOLON, cSP>> \o h.v), <<>>, r.headers)
-      \o (IF r.body # <<>> THEN Opt(wD, e.s) ELSE <<>>)
+      \o (IF r.body # <<>> THEN Opt(wD, BodyOf(e)) ELSE <<>>)
       \o <<cSP>> \o ShQuote(sBase \o r.target)
 
 VARIABLE el
@@ -261,12 +276,19 @@ Next == UNCHANGED el
 Spec == Init /\ [][Next]_el
 
 (* design invariants *)
-TypeOK == el.slot \in Slots
+TypeOK == el.slot \in Slots \cup EmptySlots
+ModelledSlots == BaseSlots \cup EmptySlots
+(* "curl -d sends the form Content-Type by itself": leaving that header out of the command is faithful exactly when there is   *)
+(* data to pass to -d - with an empty payload nothing re-creates it                                                          *)
+CmdWithoutCT(e) == LET r == ReqOf(e) IN
+    wCurl \o <<cSP>> \o wX \o <<cSP>> \o r.method \o (IF r.body # <<>> THEN Opt(wD, BodyOf(e)) ELSE <<>>) \o <<cSP>> \o ShQuote(sBase \o r.target)
+DefaultCTOnlyWithData == (el.slot \in EmptySlots \/ (el.slot = "body" /\ (el.s = <<>> \/ Head(el.s) # cAT))) =>
+                            ((CmdVerdict(CmdWithoutCT(el), ReqOf(el), FALSE).v = "T") <=> (MediaOf(el) = sFormCT /\ BodyOf(el) # <<>>))
 QuoteRoundTrip == LET t == Tokens(<<97, cSP>> \o ShQuote(el.s)) IN t.ok /\ ~t.op /\ ~t.glob /\ t.words = <<<<97>>, el.s>>
-RefFaithful == (el.slot \in BaseSlots /\ InFragment(el)) => CmdVerdict(RefCmd(el), ReqOf(el), FALSE).v = "T"
-NaivePitfalls == (el.slot \in BaseSlots /\ InFragment(el)) =>
+RefFaithful == (el.slot \in ModelledSlots /\ InFragment(el)) => CmdVerdict(RefCmd(el), ReqOf(el), FALSE).v = "T"
+NaivePitfalls == (el.slot \in ModelledSlots /\ InFragment(el)) =>
                     ((CmdVerdict(NaiveCmd(el), ReqOf(el), FALSE).v = "T")
                        <=> ~((el.slot = "header" /\ el.s = <<>>) \/ (el.slot = "body" /\ el.s # <<>> /\ Head(el.s) = cAT)))
-Export == PrintT(<<"CASE", ToJson([slot |-> el.slot, s |-> el.s, fragment |-> InFragment(el),
-                                   ref |-> IF el.slot \in BaseSlots THEN RefCmd(el) ELSE <<>>])>>)
+Export == PrintT(<<"CASE", ToJson([slot |-> el.slot, s |-> el.s, m |-> el.m, fragment |-> InFragment(el),
+                                   ref |-> IF el.slot \in ModelledSlots THEN RefCmd(el) ELSE <<>>])>>)
 =============================================================================
